@@ -197,6 +197,40 @@ def r09_5(ctx, fx):
                detail="inner polls %d, waker uses %d, Pending exits %d; Pending without waker: %s" % (np, nw, npend, [fn.path_sites(p) for n, p in bad]))
 
 
+def r09_6(ctx, fx):
+    """ConnectionContext::{downgrade, try_upgrade} act on the handle whose connection id was compared: each ConnectionHandle::close /
+    try_upgrade lies behind the equal edge of `<that same handle>.connection_id() == connection_id`.  Acting on the other handle upgrades
+    an idle connection without a timer (never closed) and leaves the active one weak (closed early)."""
+    n = 0
+    for meth, act in (("downgrade", "close"), ("try_upgrade", "try_upgrade")):
+        fn = ctx.fn(fx, "protocol::transport_service::ConnectionContext::" + meth, "R09.6")
+        if fn is None:
+            continue
+        ctx.bodies.add((fx.cfg, fn.key))
+        ids = {c.dest[0]: fn.recv(c) for c in fn.calls(r"ConnectionHandle::connection_id$") if not c.from_macro and c.dest}
+        eqs = []
+        for e in fn.calls(r"::eq$"):
+            for a in e.args:
+                m = re.match(r"&?_(\d+)$", fn.origin(a))
+                if m and int(m.group(1)) in ids and e.dest:
+                    eqs.append((e, ids[int(m.group(1))]))
+        acts = [c for c in fn.calls(r"ConnectionHandle::%s$" % act) if not c.from_macro]
+        for i, a in enumerate(acts):
+            n += 1
+            ok = False
+            for e, who in eqs:
+                if who != fn.recv(a):
+                    continue
+                for sw, t, f in fn.bool_tests(e.dest[0]):
+                    if fn.only_via(a.node, sw, [t]):
+                        ok = True
+            ctx.ob("R09.6", "ConnectionContext::%s/%s#%d-on-the-handle-whose-id-matched" % (meth, act, i), ok, site=fn.site(a.node), cfg=fx.cfg,
+                   detail="receiver %s; id comparisons on %s" % (fn.recv(a), sorted({w for _, w in eqs})))
+        ctx.ob("R09.6", "ConnectionContext::%s/both-handles-handled" % meth, len({fn.recv(a) for a in acts}) == 2, site=fn.site(fn.entry), cfg=fx.cfg,
+               detail="receivers: %s" % sorted({fn.recv(a) for a in acts}))
+    ctx.anchor("R09.6", "handle actions in ConnectionContext", n, 4, cfg=fx.cfg)
+
+
 def run(ctx):
     for cfg in ctx.configs():
         fx = ctx.facts(cfg)
@@ -205,4 +239,5 @@ def run(ctx):
             r09_3(ctx, fx)
             r09_4(ctx, fx)
             r09_5(ctx, fx)
+            r09_6(ctx, fx)
         r09_2(ctx, fx)
